@@ -345,6 +345,8 @@ func observe(content string, shiftFrom, shift int) (o obs, crashed string) {
 
 var ruleBlocks = []string{
 	"- record: r%d\n  expr: up{job=~\"x\"}\n",
+	// a rule with control comments of its own directly above it: they must survive an excluded block placed right before them
+	"# pint disable promql/regexp\n# pint rule/owner bob\n- record: c%d\n  expr: up{job=~\"x\"}\n",
 	"- alert: A%d\n  expr: up == 0\n  labels:\n    severity: page\n",
 }
 
@@ -367,7 +369,7 @@ func e2e(c *explore.Chooser) *explore.Case {
 	for i := 0; i < n; i++ {
 		kind := c.Free(1+len(forms), fmt.Sprintf("b%d.kind", i))
 		if kind == 0 {
-			rb := fmt.Sprintf(ruleBlocks[nrules%2], nrules)
+			rb := fmt.Sprintf(ruleBlocks[nrules%len(ruleBlocks)], nrules)
 			nrules++
 			partsA, partsB, partsNone = append(partsA, rb), append(partsB, rb), append(partsNone, rb)
 			lineNo += strings.Count(rb, "\n")
